@@ -144,7 +144,15 @@ class Script:
             if pad:
                 p.call({'op': 'store_bits', 'obj': b, 'bits': bitstr_of_list([0] * pad)})
                 schema.append({'what': 'bits', 'n': pad})
-            r = p.call({'op': 'store_snake_bytes', 'obj': b, 'bytes': snake, 'via': rng.choice(['store_snake_bytes', 'store_snake_bytes'])})
+            # snake data that is valid UTF-8 goes through the string entry points half of the time (multi-byte characters then
+            # straddle cell boundaries: the text must be decoded after the chain has been joined)
+            as_text = True
+            try:
+                bytes(snake).decode()
+            except UnicodeDecodeError:
+                as_text = False
+            as_text = as_text and rng.random() < 0.7
+            r = p.call({'op': 'store_snake_bytes', 'obj': b, 'bytes': snake, 'via': 'store_snake_string' if as_text else 'store_snake_bytes'})
             if 'err' in r['out']:
                 return
         c = p.next
@@ -162,7 +170,7 @@ class Script:
             if 'err' in r['out']:
                 return
         if snake is not None:
-            p.call({'op': 'load_snake_bytes', 'obj': s})
+            p.call({'op': 'load_snake_bytes', 'obj': s, 'via': 'load_snake_string' if as_text and rng.random() < 0.7 else 'load_snake_bytes'})
 
 
 def generate(tier, seed, ctx):
@@ -181,7 +189,14 @@ def generate(tier, seed, ctx):
         mode = rng.random()
         if mode < 0.12:
             n = rng.choice([0, 1, 2, 100, 126, 127, 128, 129, 1000, 5000])
-            s.run(rng.randint(0, 3), snake=[rng.getrandbits(8) for _ in range(n)], prefill=rng.choice([0, 0, 7, 8, 500]))
+            if rng.random() < 0.5:
+                snake = [rng.getrandbits(8) for _ in range(n)]
+            else:
+                txt = ''
+                while len(txt.encode()) < n:
+                    txt += rng.choice('ab \u00e9\u0416\u20ac\u4e2d\U0001F600')
+                snake = list(txt.encode())
+            s.run(rng.randint(0, 3), snake=snake, prefill=rng.choice([0, 0, 7, 8, 500]))
         elif mode < 0.25:
             s.run(rng.randint(1, 4), prefill=rng.choice([700, 900, 1000, 1015, 1022]))
         else:
